@@ -224,10 +224,52 @@ fn set_matches(neg: bool, items: &[SetItem], c: char) -> bool {
 }
 
 /// Does the whole of `t` match the whole pattern?
+///
+/// Dynamic programme over (atoms consumed, characters consumed): `reach[j]` says whether the
+/// first `i` atoms can match exactly the first `j` characters. Same relation as the textbook
+/// recursive definition (kept below as `full_match_recursive` and compared with it in the quick
+/// tier on small inputs), but polynomial, so that generated patterns with many `*` stay cheap.
 pub fn full_match(atoms: &[Atom], t: &[char]) -> bool {
+    let n = t.len();
+    let mut reach = vec![false; n + 1];
+    reach[0] = true;
+    for a in atoms {
+        let mut next = vec![false; n + 1];
+        match a {
+            Atom::Star => {
+                let mut seen = false;
+                for j in 0..=n {
+                    seen |= reach[j];
+                    next[j] = seen;
+                }
+            }
+            _ => {
+                for j in 0..n {
+                    if reach[j] {
+                        let c = t[j];
+                        let ok = match a {
+                            Atom::Char(x) => *x == c,
+                            Atom::Any => true,
+                            Atom::Set { neg, items } => set_matches(*neg, items, c),
+                            Atom::Star => unreachable!(),
+                        };
+                        if ok {
+                            next[j + 1] = true;
+                        }
+                    }
+                }
+            }
+        }
+        reach = next;
+    }
+    reach[n]
+}
+
+/// The definition, literally (exponential on patterns with many `*`).
+pub fn full_match_recursive(atoms: &[Atom], t: &[char]) -> bool {
     match atoms.first() {
         None => t.is_empty(),
-        Some(Atom::Star) => (0..=t.len()).any(|k| full_match(&atoms[1..], &t[k..])),
+        Some(Atom::Star) => (0..=t.len()).any(|k| full_match_recursive(&atoms[1..], &t[k..])),
         Some(a) => {
             let Some(&c) = t.first() else { return false };
             let ok = match a {
@@ -236,7 +278,7 @@ pub fn full_match(atoms: &[Atom], t: &[char]) -> bool {
                 Atom::Set { neg, items } => set_matches(*neg, items, c),
                 Atom::Star => unreachable!(),
             };
-            ok && full_match(&atoms[1..], &t[1..])
+            ok && full_match_recursive(&atoms[1..], &t[1..])
         }
     }
 }
